@@ -52,7 +52,9 @@ func c02Build(ssa bool) *c02World {
 		// a: create, b: update, c: recreate, e: adopt (+update), f: desired name occupied by a foreign-owned object, h: desired name occupied by a non-matching orphan
 		// the hook wires a plain (non-controller) owner reference to the parent into the child it wants created
 		return kit.M{"status": kit.M{"seen": ver}, "children": kit.L{kit.Owners(child(kit.Leaf, "", "a", ver), kit.OwnerRef(kit.Thing, "p", "puid", false)), child(kit.Leaf, "", "b", ver), child(kit.Widget, "", "c", ver), child(kit.Leaf, "", "e", ver),
-			child(kit.Leaf, "", "f", ver), child(kit.Leaf, "", "h", ver)}}
+			child(kit.Leaf, "", "f", ver), child(kit.Leaf, "", "h", ver),
+			// ... and one child the hook places in ANOTHER namespace: it is born with the controller reference too
+			child(kit.Leaf, "n2", "xo", ver)}}
 	}))
 	w.DeliverAll()
 	for i := 0; i < 4; i++ {
@@ -119,7 +121,7 @@ func (x *c02World) judge(log []*sim.Request, actorUID func(r *sim.Request) strin
 			if kit.UID(r.Pre) != me {
 				bad("wrote-other-parent", "%s modified a parent that is not the acting one (uid %s, acting %s)", r, kit.UID(r.Pre), me)
 			}
-		case r.NS != "n1":
+		case r.NS != "n1" && !(r.Pre == nil && r.Name == "xo"):
 			bad("wrote-other-namespace", "%s: object outside the parent's namespace written", r)
 		case r.Pre == nil:
 			// creation (POST or apply-create): born with exactly one controller reference, to the acting parent
